@@ -54,6 +54,9 @@ def Ranker.new : Ranker :=
   { hist := Array.replicate histSize 0, capt := Array.replicate captSize 0,
     cont0 := Array.replicate contSize 0, cont1 := Array.replicate contSize 0 }
 
+/-- `Clear()`: every store back to all zeros. -/
+def Ranker.clear (_ : Ranker) : Ranker := Ranker.new
+
 @[inline] def histIx (stm : Color) (from_ to : Nat) : Nat := (stm.toNat * 64 + from_) * 64 + to
 /-- `data[moved-Pawn][captured-Pawn][sq]` -/
 @[inline] def captIx (moved captured sq : Nat) : Nat := ((moved - 1) * 5 + (captured - 1)) * 64 + sq
